@@ -6,6 +6,8 @@ import (
 	"strings"
 	"testing"
 
+	"github.com/prometheus/client_golang/prometheus"
+
 	"go.opentelemetry.io/otel"
 	"go.opentelemetry.io/otel/attribute"
 	"go.opentelemetry.io/otel/metric"
@@ -96,7 +98,9 @@ var c18KindNames = []string{"counter", "updown", "hist", "gauge", "ocounter", "o
 // mode: "" random; "f28" one exponential histogram, one measurement, default MaxScale 20 (known finding F28);
 // "f34" two instruments of the same family and type, first description empty, second not (F34, repaired in /repo de0451a:
 // the empty first description wins and Gather succeeds).
-func c18Scenario(out *vOut, g *c18Gen, ctx context.Context, gen string, mode string) {
+// "ovl": plain scenario (no early scrape, no exemplars) that is built but NOT scraped: the overlap leg drives the scrapes.
+func c18Scenario(out *vOut, g *c18Gen, ctx context.Context, gen string, mode string) *c18Built {
+	ovl := mode == "ovl"
 	forceF28 := mode == "f28"
 	forceF34 := mode == "f34"
 	forceEarly := mode == "early" // a scrape before NewMeterProvider(WithReader(exporter)), then the normal scenario
@@ -205,7 +209,7 @@ func c18Scenario(out *vOut, g *c18Gen, ctx context.Context, gen string, mode str
 
 	// views, one per (instrument name, kind): exponential aggregation for kind 7; in a third of the scenarios an
 	// attribute filter that drops the c18DropKeys (dropped attributes travel on the exemplars)
-	filterOn := r.Intn(3) == 0 || forceEx
+	filterOn := (!ovl && r.Intn(3) == 0) || forceEx
 	var views []sdkmetric.View
 	seenView := map[string]bool{}
 	sdkKinds := []sdkmetric.InstrumentKind{sdkmetric.InstrumentKindCounter, sdkmetric.InstrumentKindUpDownCounter,
@@ -245,12 +249,12 @@ func c18Scenario(out *vOut, g *c18Gen, ctx context.Context, gen string, mode str
 	exp, err := New(append(c18Opts(flags, nsTok), WithRegisterer(cr))...)
 	if err != nil {
 		out.Line("e2e %s %s %s - => new-error", gen, flags, nsTok)
-		return
+		return nil
 	}
 	tap := &c18Tap{Reader: cr.c.(*collector).reader}
 	cr.c.(*collector).reader = tap
 	early := ""
-	if forceEarly || r.Intn(8) == 0 {
+	if forceEarly || (!ovl && r.Intn(8) == 0) {
 		// Prometheus scrapes while the application is still starting: the exporter is not registered with a
 		// MeterProvider yet (reader.Collect returns ErrReaderNotRegistered). Nothing may be exposed — and nothing cached.
 		flags += "1"
@@ -262,7 +266,9 @@ func c18Scenario(out *vOut, g *c18Gen, ctx context.Context, gen string, mode str
 	r2 := sdkmetric.NewManualReader()
 	mp := sdkmetric.NewMeterProvider(sdkmetric.WithReader(exp), sdkmetric.WithReader(r2),
 		sdkmetric.WithResource(resource.NewSchemaless(res...)), sdkmetric.WithView(views...))
-	defer mp.Shutdown(ctx)
+	if !ovl {
+		defer mp.Shutdown(ctx)
+	}
 
 	dupTag := 0
 	for _, sp := range scopes {
@@ -308,7 +314,7 @@ func c18Scenario(out *vOut, g *c18Gen, ctx context.Context, gen string, mode str
 				if forceEx {
 					k = 0
 				}
-				if k >= 5 {
+				if k >= 5 || ovl {
 					return ctx
 				}
 				var tid trace.TraceID
@@ -331,10 +337,13 @@ func c18Scenario(out *vOut, g *c18Gen, ctx context.Context, gen string, mode str
 		}
 	}
 
+	if ovl {
+		return &c18Built{gen: gen, flags: flags, nsTok: nsTok, col: cr.c, r2: r2, mp: mp}
+	}
 	var rm metricdata.ResourceMetrics
 	if err := r2.Collect(ctx, &rm); err != nil {
 		out.Line("e2e %s %s %s - => reader-error", gen, flags, nsTok)
-		return
+		return nil
 	}
 	obs := early + c18Gather(cr.c)
 	data := c18Data(&rm, false)
@@ -351,6 +360,30 @@ func c18Scenario(out *vOut, g *c18Gen, ctx context.Context, gen string, mode str
 		sep = " | "
 	}
 	out.Line("e2e %s %s %s %s%s%s => %s", gen, flags, nsTok, c18SetKVs(*rm.Resource.Set()), sep, data, obs)
+	return nil
+}
+
+// c18Built is a scenario that has been set up and measured but not scraped yet.
+type c18Built struct {
+	gen, flags, nsTok string
+	col               prometheus.Collector
+	r2                *sdkmetric.ManualReader
+	mp                *sdkmetric.MeterProvider
+}
+
+// emit writes the e2e line of one scrape of this exporter: input = the independent second reader's data.
+func (b *c18Built) emit(out *vOut, ctx context.Context, gen string, obs string) {
+	var rm metricdata.ResourceMetrics
+	if err := b.r2.Collect(ctx, &rm); err != nil {
+		out.Line("e2e %s %s %s - => reader-error", gen, b.flags, b.nsTok)
+		return
+	}
+	data := c18Data(&rm, false)
+	sep := ""
+	if data != "" {
+		sep = " | "
+	}
+	out.Line("e2e %s %s %s %s%s%s => %s", gen, b.flags, b.nsTok, c18SetKVs(*rm.Resource.Set()), sep, data, obs)
 }
 
 func c18Legal(s string) bool {
